@@ -8,7 +8,7 @@ use crate::report::{par_run, Report};
 use crate::rng::Rng;
 use serde_json::json;
 
-pub const RULE: &str = "All 22 indicators, periods 1..=8 for every (prefix kind x level x feed form) combination plus sampled larger periods: an active prefix (none = stream start, after-reset, 1..n+2 bars then reset, for the window-only indicators MIN/MAX/FAST/ROC/ER/TR also NaN, inf and unrepresentable-swing ticks, random walk, spikes 1e6x the level, alternating decades) followed by flat stretches (all price fields equal; lengths 3n+3, 100, 1100, 5000) at levels {1e-3,0.1,1,37.5,1e6,-37.5,-1e-3,0 (0 not for ROC/PPO)} plus four seeded levels per combination (two- and four-decimal prices, arbitrary doubles of either sign in 1e-3..1e6), and for bars also zero-volume stretches with moving prices. The instance is cloned / restored from bytes / clone_from-assigned at the start of a stretch and again inside it. Judged at every step of a stretch at which the harness's own copy of the window is degenerate (all n, or n+1 for ROC/ER/MFI, prices equal, or zero money flow), and at every step of the stretch for the EMA-based indicators: output finite and inside the documented range; exactly 50 (FAST), 0 (CCI, ROC, TR); MAD <= tau(t)*M; SD <= sqrt(tau(t))*M; BB bands within |k|*sqrt(tau(t))*M of the average. Non-trivial: a stretch preceded by activity (or at stream start / after reset) with >= 1 degenerate-window step; distinct by construction (combination index) .";
+pub const RULE: &str = "All 22 indicators, periods 1..=8 for every (prefix kind x level x feed form) combination plus sampled larger periods: an active prefix (none = stream start, after-reset, 1..n+2 bars then reset, activity 1.7e5 x the level then reset, for the window-only indicators MIN/MAX/FAST/ROC/ER/TR also NaN, inf and unrepresentable-swing ticks, random walk, spikes 1e6x the level, alternating decades) followed by flat stretches (all price fields equal; lengths 3n+3, 100, 1100, 5000) at levels {1e-3,0.1,1,37.5,1e6,-37.5,-1e-3,0 (0 not for ROC/PPO)} plus four seeded levels per combination (two- and four-decimal prices, arbitrary doubles of either sign in 1e-3..1e6), and for bars also zero-volume stretches with moving prices. The instance is cloned / restored from bytes / clone_from-assigned at the start of a stretch and again inside it. Judged at every step of a stretch at which the harness's own copy of the window is degenerate (all n, or n+1 for ROC/ER/MFI, prices equal, or zero money flow), and at every step of the stretch for the EMA-based indicators: output finite and inside the documented range; exactly 50 (FAST), 0 (CCI, ROC, TR); MAD <= tau(t)*M; SD <= sqrt(tau(t))*M; BB bands within |k|*sqrt(tau(t))*M of the average. Non-trivial: a stretch preceded by activity (or at stream start / after reset) with >= 1 degenerate-window step; distinct by construction (combination index) .";
 
 /// flat price levels: positive ones of several magnitudes, two negative ones (spreads, de-meaned series)
 /// and exactly zero (the latter not for ROC and PPO, whose formula divides by the price level itself)
@@ -37,6 +37,9 @@ pub enum Prefix {
     /// a few bars (fewer than, equal to or just above the period), then reset(): the stretch starts a new
     /// stream on an instance whose window was only partly written
     ShortReset,
+    /// activity five decades above the level, then reset(): whatever the reset leaves in place (a running
+    /// mean, say) is huge next to the stream that follows
+    BigThenReset,
     /// ordinary activity containing a NaN tick, an infinite tick and a finite swing whose size is not
     /// representable (1e308 to -1e308). Only for the indicators that keep nothing but their window (MIN, MAX,
     /// FAST, ROC, ER, TR): for them "after arbitrary earlier activity" includes this, since whatever left
@@ -150,6 +153,17 @@ pub fn build(p: &Params, bars: bool, prefix: Prefix, level: f64, zero_volume_str
             }
             let tail = rng.below(n + 2);
             mk_active(rng, tail, level, &mut inputs, &mut flags, false, false);
+        }
+        Prefix::BigThenReset => {
+            let start = inputs.len();
+            mk_active(rng, plen, level, &mut inputs, &mut flags, false, false);
+            for x in inputs[start..].iter_mut() {
+                *x = match x {
+                    In::S(v) => In::S(*v * 1.7e5),
+                    In::B(b) => In::B(Bar { v: b.v, ..b.scale_prices(1.7e5) }),
+                };
+            }
+            reset_at = Some(inputs.len());
         }
         Prefix::ShortReset => {
             let k = 1 + rng.below(n + 2);
@@ -334,7 +348,7 @@ pub fn run_scenario(rep: &mut Report, p: &Params, sc: &Scenario, tag: &str) -> u
 
 pub fn run(ctx: &Ctx) -> Report {
     let mut jobs = Vec::new();
-    let prefixes = [Prefix::None, Prefix::AfterReset, Prefix::Walk, Prefix::Spikes, Prefix::AltDecades, Prefix::Short(1), Prefix::Short(2), Prefix::ShortReset, Prefix::Poison];
+    let prefixes = [Prefix::None, Prefix::AfterReset, Prefix::Walk, Prefix::Spikes, Prefix::AltDecades, Prefix::Short(1), Prefix::Short(2), Prefix::ShortReset, Prefix::Poison, Prefix::BigThenReset];
     let big: &[usize] = if ctx.quick() { &[14, 50] } else { &[14, 50, 200, 512] };
     let mut idx = 0u64;
     let reps = ctx.pick(3, 60);
@@ -396,6 +410,7 @@ pub fn run(ctx: &Ctx) -> Report {
             Prefix::AltDecades => "after_alt_decades",
             Prefix::Short(_) => "after_short_prefix",
             Prefix::ShortReset => "after_short_prefix_and_reset",
+            Prefix::BigThenReset => "after_reset_from_a_much_higher_level",
             Prefix::Poison => "after_nonfinite_or_overflowing_ticks",
         });
         let tag = if zero_vol { format!("{}.zero_volume", tag) } else { tag };
